@@ -133,10 +133,10 @@ def tlc_must_be_clean(out, module):
         raise ToolError("TLC reported an error in %s:\n%s" % (module, out[-3000:]))
 
 
-def model_check(ctx, module, cfg=None, workers=8, timeout=1800, tag=None):
+def model_check(ctx, module, cfg=None, workers=8, timeout=1800, tag=None, env=None):
     """Step (1): the specification itself (invariants, refinement, laws). A violated invariant here is a
     defect of the *specification* (or a design-level finding) and is a tool error for the check."""
-    out = tlc(ctx, module, cfg, workers=workers, timeout=timeout, tag=tag)
+    out = tlc(ctx, module, cfg, workers=workers, timeout=timeout, tag=tag, env=env)
     tlc_must_be_clean(out, module)
     if "Model checking completed. No error has been found." not in out and "Finished computing initial states" not in out:
         raise ToolError("TLC did not complete on %s:\n%s" % (module, out[-2000:]))
